@@ -299,7 +299,7 @@ func (g *G) smallJSON() interface{} {
 	return g.value(2)
 }
 
-var permKeys = []string{"cfg!", "ver!", "p!"}
+var permKeys = []string{"cfg!", "ver!", "p!", "!"} // "!": the bare sigil is a name that ends in it
 
 // key: a binding name; in c18 mode mostly a permanent one
 func (g *G) key() string {
